@@ -662,7 +662,11 @@ func (r *replicateChannelManager) GetChannelChan() <-chan string {
 		if c != nil {
 			return c
 		}
-		time.Sleep(time.Second)
+		select {
+		case <-r.getCtx().Done():
+			return nil // a nil channel never delivers: the caller's select takes its own Done branch
+		case <-time.After(time.Second):
+		}
 	}
 }
 
